@@ -107,6 +107,8 @@ class DiffOperator(operator.Operator, abc.ABC):
         """apply 1st order differential operator w/r to parameter `param`"""
         if not inplace:
             sm = sm.copy()
+        if sm.ndim < self.ndim:
+            sm.expand(self.ndim)
         sm_d1 = self._derive1(sm, param)
         sm_d1.arrays.update("equilibrium", 0)  # remove equilibrium
         return sm_d1
@@ -115,6 +117,8 @@ class DiffOperator(operator.Operator, abc.ABC):
         """apply 2nd order differential operator w/r to parameters pair `params`"""
         if not inplace:
             sm = sm.copy()
+        if sm.ndim < self.ndim:
+            sm.expand(self.ndim)
         sm_d2 = self._derive2(sm, Pair(params))
         sm_d2.arrays.update("equilibrium", 0)  # remove equilibrium
         return sm_d2
